@@ -70,9 +70,15 @@ pub enum Dsd {
     Deny,
     /// answers true, attach_declarative_shadow fails (returns false)
     AllowFail,
+    /// answers true, attach_declarative_shadow succeeds: the template's contents become the
+    /// host's shadow root (recorded in `shadow_hosts`; the template element itself is never
+    /// inserted into the tree by the parser)
+    AllowSucceed,
 }
 
 pub struct ModelDom {
+    /// (host, template) pairs for which attach_declarative_shadow answered true
+    pub shadow_hosts: RefCell<Vec<(Id, Id)>>,
     pub nodes: RefCell<Vec<MNode>>,
     pub quirks: Cell<QuirksMode>,
     pub quirks_calls: Cell<u32>,
@@ -93,6 +99,17 @@ pub struct ModelDom {
 pub const DOC: Id = 0;
 
 impl ModelDom {
+    /// A sink whose declarative-shadow-root answers follow the case's configuration.
+    pub fn for_cfg(cfg: &crate::sinks::drive::TreeCfg) -> ModelDom {
+        let mut m = ModelDom::new();
+        m.dsd = match (cfg.dsd_allow, cfg.dsd_succeed) {
+            (false, _) => Dsd::Deny,
+            (true, false) => Dsd::AllowFail,
+            (true, true) => Dsd::AllowSucceed,
+        };
+        m
+    }
+
     pub fn new() -> ModelDom {
         let doc = MNode {
             kind: MKind::Document,
@@ -105,6 +122,7 @@ impl ModelDom {
             created_at: 0,
         };
         ModelDom {
+            shadow_hosts: RefCell::new(vec![]),
             nodes: RefCell::new(vec![doc]),
             quirks: Cell::new(QuirksMode::NoQuirks),
             quirks_calls: Cell::new(0),
@@ -731,13 +749,23 @@ impl TreeSink for ModelDom {
     fn allow_declarative_shadow_roots(&self, intended_parent: &Id) -> bool {
         self.call("allow_declarative_shadow_roots");
         self.valid("allow_declarative_shadow_roots", "intended_parent", *intended_parent);
-        self.dsd == Dsd::AllowFail
+        self.dsd != Dsd::Deny
     }
 
     fn attach_declarative_shadow(&self, location: &Id, template: &Id, _attrs: &[Attribute]) -> bool {
         self.call("attach_declarative_shadow");
         self.valid("attach_declarative_shadow", "location", *location);
         self.valid("attach_declarative_shadow", "template", *template);
+        if self.valid("attach_declarative_shadow", "location", *location) && !self.is_element(*location) {
+            self.violate("attach_declarative_shadow", format!("host {} is not an element", self.describe(*location)));
+        }
+        if self.valid("attach_declarative_shadow", "template", *template) && !self.is_html_named(*template, "template") {
+            self.violate("attach_declarative_shadow", format!("{} is not an HTML template element", self.describe(*template)));
+        }
+        if self.dsd == Dsd::AllowSucceed {
+            self.shadow_hosts.borrow_mut().push((*location, *template));
+            return true;
+        }
         false
     }
 
